@@ -25,7 +25,7 @@ Ev == T.ev[l]
 
 TInit == /\ tid \in 1..Len(Batch) /\ l = 1
          /\ kind = Batch[tid].kind /\ shape = Batch[tid].shape /\ pc = "choose"
-         /\ saved = Nothing /\ file = Nothing /\ loaded = Nothing /\ memo = Nothing /\ gen = 1
+         /\ saved = Nothing /\ file = Nothing /\ loaded = Nothing /\ memo = Nothing /\ recomp = NoMesh /\ gen = 1
 
 IsEv(e) == l <= Len(T.ev) /\ Ev.ev = e /\ l' = l + 1 /\ UNCHANGED tid
 
@@ -45,7 +45,12 @@ ShapeMatches(s, sv) ==
                             /\ (sv.dyn.mu # 0) = (s.probes /\ s.nframes > 1) /\ (sv.dyn.theta # 0) = (s.probes /\ s.nframes > 1)
                             /\ (sv.dyn.screening_iterations # 0) = (s.screening /\ s.nframes > 1)
 
-TMade == /\ IsEv("made") /\ Materialise(Ev.saved) /\ ShapeMatches(shape, Ev.saved)
+\* recomp: the identities of Mesh.from_triangulation(sites, elements) of the object that is about to be saved
+\* (the consistency of the object's mesh with its triangulation is also a guard here, so that an object that violates
+\* SavedMeshIsMeshOfItsTriangulation is a rejected trace and the other traces of the batch are still examined)
+MeshOfRec(sv) == CASE kind = "device" -> sv.mesh [] kind = "mesh" -> sv [] kind = "solution" -> sv.mesh [] OTHER -> NoMesh
+TMade == /\ IsEv("made") /\ Materialise(Ev.saved, IF kind = "options" THEN NoMesh ELSE Ev.recomp) /\ ShapeMatches(shape, Ev.saved)
+         /\ (kind # "options" => MeshOfRec(Ev.saved) = Ev.recomp)
 
 TSave == /\ IsEv("save") /\ Ev.ok /\ Save
          /\ CASE kind = "options" -> file' = Ev.rec
